@@ -14,13 +14,23 @@ pub fn respell(rng: &mut Rng, plain: &str) -> String {
     }
     let mut ip = ip;
     let mut fp = fp;
-    // leading zeros
+    // leading zeros (now and then more than any fixed digit buffer holds)
     if rng.chance(1, 6) {
         ip = format!("{}{}", "0".repeat(1 + rng.usize(3)), ip);
+    } else if rng.chance(1, 60) {
+        ip = format!("{}{}", "0".repeat(*rng.pick(&[17usize, 20, 32, 64, 128, 255, 256, 400, 800])), ip);
     }
     // trailing fractional zeros
     if rng.chance(1, 6) {
         fp = format!("{}{}", fp, "0".repeat(1 + rng.usize(3)));
+    } else if rng.chance(1, 60) {
+        fp = format!("{}{}", fp, "0".repeat(*rng.pick(&[17usize, 20, 32, 64, 128, 255, 256, 400, 800])));
+    }
+    // a long tail of non-zero fraction digits (does not change which integers are nearest unless it sits on .5,
+    // which `around` covers; it does change the float and exercises every digit limit)
+    if rng.chance(1, 80) && !fp.is_empty() && fp != "5" {
+        let n = *rng.pick(&[20usize, 40, 64, 100, 300, 770, 1100]);
+        fp = format!("{}{}", fp, (0..n).map(|_| (b'0' + rng.usize(10) as u8) as char).collect::<String>());
     }
     match rng.usize(6) {
         0 | 1 => {
@@ -110,7 +120,7 @@ pub fn around(rng: &mut Rng, v: i128) -> String {
 
 pub fn random_plain(rng: &mut Rng) -> String {
     let mx = if rng.chance(1, 8) { 25 } else { 6 };
-    let nd = 1 + rng.usize(mx);
+    let nd = if rng.chance(1, 100) { *rng.pick(&[39usize, 40, 64, 100, 308, 309, 310, 400, 800]) } else { 1 + rng.usize(mx) };
     let mut s = String::new();
     if rng.chance(1, 3) {
         s.push('-');
